@@ -51,6 +51,9 @@ type Result struct {
 	Unmodelled string // non-empty: the run touched something the model refuses to guess; Stdout/Exit then meaningless
 	Error      string // non-empty: the script did something cmd.exe would report as an error; Stdout holds the output up to that point
 	Steps      int
+	// StrayParens counts executed lines that start with ')' outside any block (rule 6: they act like REM);
+	// the converter's structure never lets execution reach one, so a non-zero count is worth reporting
+	StrayParens int
 }
 
 const defaultMaxSteps = 2_000_000
@@ -106,6 +109,8 @@ type interp struct {
 	labelsOK  bool
 	endlocalB bool // alternative reading of rule 8: endlocal in a called frame pops the caller's setlocal
 	ambiguous bool // an endlocal ran in a called frame that had no setlocal of its own
+
+	strayParens int // executed ')' lines outside any block
 }
 
 // Run interprets script under the model.
@@ -178,6 +183,7 @@ func runOnce(script string, o Options, endlocalB bool) (rr runResult) {
 	defer func() {
 		rr.Stdout = in.out.String()
 		rr.Steps = in.steps
+		rr.StrayParens = in.strayParens
 		rr.ambiguous = in.ambiguous
 		if x := recover(); x != nil {
 			a, ok := x.(abort)
